@@ -433,6 +433,30 @@ func main() {
 		typedSplice(e, "time.Time", []time.Time{{}, time.Time{}.In(time.FixedZone("x", 3600)), time.Unix(0, 0), time.Unix(0, 0).UTC()}, func(a, b time.Time) bool { return a == b })
 		typedSplice(e, "[2]float64", [][2]float64{{nz, 0}, {0, nz}, {0, 0}, {1, 2}}, func(a, b [2]float64) bool { return f64(a[0], b[0]) && f64(a[1], b[1]) })
 	}
+	// Fill / Repeat at millions of elements (a copy strategy that changes above a size)
+	for _, n := range ev.Pick(r, []int{1<<20 + 1, 3<<20 + 1, 1<<22 + 3}, []int{1<<20 + 1, 3<<20 + 1, 1<<22 + 3, 1<<24 + 5, 1<<26 + 1}) {
+		big := make([]int32, n)
+		e.Input(true)
+		e.Call()
+		slices.Fill(big, 7)
+		for i, v := range big {
+			if v != 7 {
+				e.Fail("Fill|contents", map[string]any{"fn": "Fill", "len": n}, "Fill(len=%d): element %d = %d, want 7", n, i, v)
+				break
+			}
+		}
+		e.Call()
+		rep := slices.Repeat(int32(9), n)
+		if len(rep) != n {
+			e.Fail("Repeat|length", map[string]any{"fn": "Repeat", "count": n}, "Repeat(9,%d) has length %d", n, len(rep))
+		}
+		for i, v := range rep {
+			if v != 9 {
+				e.Fail("Repeat|contents", map[string]any{"fn": "Repeat", "count": n}, "Repeat(9,%d): element %d = %d", n, i, v)
+				break
+			}
+		}
+	}
 	// Large-size families: the same splice model at lengths around every power of two up to
 	// 1025 (append growth, memmove and exponential-copy thresholds), a few positions each.
 	fam := 0
